@@ -4,6 +4,8 @@ outward and its index maps are mutually inverse.
 World: ONE conforming tetrahedral mesh shared by clients (cell/face reader, edge-ring reader, lookup, border
 classifier, boundary extractor).  Seeded interleaving; cache drops (connectivity.clear()) in odd seeds; the same
 queries are re-issued on a fresh instance in another order, and a sample alone on fresh instances."""
+import numpy as np
+
 from sim.engine import Sim, call, canon
 from sim.rng import Rng, h64
 from models.ref_volume import RefVolume, seq_equal_mod, outward, lib_orientation
@@ -324,6 +326,8 @@ class C03(Sim):
         m2b_f, b2m_f, m2b_e, b2m_e = dict(bc.m2b_face), dict(bc.b2m_face), dict(bc.m2b_edge), dict(bc.b2m_edge)
         for name, m2b, b2m, n_b, exp_keys in (("face", m2b_f, b2m_f, len(surf.faces), set(ref.border_faces())),
                                               ("edge", m2b_e, b2m_e, len(surf.edges), {ref.eid[k] for k in ref.border_edge_keys()})):
+            if any(not isinstance(q, (int, np.integer)) for q in list(m2b) + list(b2m) + list(m2b.values()) + list(b2m.values())):
+                self.violation("maps-mutually-inverse", op, "wrong_value", name + "-maps", "", "m2b_%s / b2m_%s hold entries that are no element indices: %r / %r" % (name, name, m2b, b2m))
             if any(m2b.get(b2m[i]) != i for i in b2m) or any(b2m.get(m2b[x]) != x for x in m2b):
                 self.violation("maps-mutually-inverse", op, "wrong_value", name + "-maps", "", "m2b_%s / b2m_%s are not inverse" % (name, name))
             if sorted(b2m) != list(range(n_b)) or set(m2b) != exp_keys:
